@@ -15,10 +15,10 @@ func toRef(c *hapi.Cmd) refmodel.Cmd {
 
 // RefOpts selects what the reference comparison reports (each property claims its own part).
 type RefOpts struct {
-	Results  bool   // result codes of every reply and the set/order of replies per step   (C02, C04)
-	Counts   bool   // LCount / LRCount of every reply                                      (C17, C02 for LRCount)
-	State    bool   // holders (id, depth) and waiter order after every step                (C02, C04)
-	Prefix   string // signature prefix, e.g. "C02"
+	Results bool   // result codes of every reply and the set/order of replies per step   (C02, C04)
+	Counts  bool   // LCount / LRCount of every reply                                      (C17, C02 for LRCount)
+	State   bool   // holders (id, depth) and waiter order after every step                (C02, C04)
+	Prefix  string // signature prefix, e.g. "C02"
 }
 
 // OracleRef compares the implementation with RefLockDB step by step (single db 0).
